@@ -124,7 +124,19 @@ def f11_colon_in_first_segment(rec, args):
     if not isinstance(s, str) or "scheme" not in diff or diff["scheme"][0] != "":
         return False
     first = re.split(r"[/?#]", s, 1)[0]
-    return ":" in first and not s.startswith("/")
+    if not (":" in first and not s.startswith("/")):
+        return False
+    # ... and the *supplied* text really has no scheme by the reference parser: a constructor text in which the reference finds a
+    # scheme (or an authority) that the implementation turned into path text is a different defect
+    if rec.get("case") == "route" and len(args) >= 2 and isinstance(args[0], str) and isinstance(args[1], str):
+        from vlib import routes
+        from vlib.ref import rfc3986 as R
+        t = routes.CTOR_TEMPLATES.get(args[0].split("~")[0]) or routes.CTX_TEMPLATES.get(args[0])
+        if t is not None:
+            sc, auth, _p, _q, _f, status = R.split(R.preprocess(t.replace("{}", args[1])))
+            if status != "unspecified" and (sc or auth):
+                return False
+    return True
 
 
 @predicate
